@@ -38,6 +38,7 @@ def gen_wf_mrs(rng, max_nouns=2, shuffle_vars=False, shuffle_rels=False):
     top = vg.new("h")
     rels, hcons, vars_ = [], [], {}
     nouns = []
+    qlabels = {}
     for _ in range(rng.randrange(0, max_nouns + 1)):
         x = vg.new("x")
         lbl = vg.new("h")
@@ -67,6 +68,7 @@ def gen_wf_mrs(rng, max_nouns=2, shuffle_vars=False, shuffle_rels=False):
             rels.append({"pred": rng.choice(QUANTS), "label": ql,
                          "args": [["ARG0", x], ["RSTR", hole], ["BODY", body]]})
             hcons.append([hole, "qeq", lbl])
+            qlabels[x] = ql
             # degree modifier of the quantifier ("nearly every"): shares its label, ARG1 unbound
             if rng.random() < 0.15:
                 e4 = vg.new("e")
@@ -97,6 +99,12 @@ def gen_wf_mrs(rng, max_nouns=2, shuffle_vars=False, shuffle_rels=False):
     rels.append({"pred": rng.choice(VERBS), "label": vlbl, "args": vargs})
     vars_[e] = [["TENSE", rng.choice(["past", "pres"])]] + rng.sample(EPROPS[3:], rng.randrange(0, 2))
     cur_lbl, cur_e = vlbl, e
+    # a focus-like modifier in a quantifier's scope that is connected to the quantifier through the
+    # verb and the quantified noun (ARG2 = the verb's event, ARG1 unexpressed)
+    vx = [a[1] for a in vargs if a[1] in qlabels]
+    if vx and rng.random() < 0.12:
+        ef = vg.new("e")
+        rels.append({"pred": "_focus_x", "label": qlabels[rng.choice(vx)], "args": [["ARG0", ef], ["ARG2", e]]})
     # free modifiers in the verb's scope (ARG1 unexpressed) that share an argument which the verb
     # does not take: several representatives of one scope, some already connected to each other
     if rng.random() < 0.1:
